@@ -532,3 +532,25 @@ Definition copy_attrs (follow : bool) (lst st : fattrs) : fattrs :=
 Definition copy_total (follow : bool) (lst st : fattrs) : option Z :=
   let a := copy_attrs follow lst st in
   if (a_type a =? 2) || (a_type a =? 3) then None else Some (a_size a).
+
+(* ------------------------------------------------------------------------------------------ *)
+(* _SFTPFileCopier.run(): the try/finally around the copy.  After the body (normal return, or the
+   exception of a failed block / of the total-bytes check) the finally clause closes the source and
+   then the destination, one after the other:
+       if self._src: await self._src.close()
+       if self._dst: await self._dst.close()
+   An exception raised by a close replaces whatever the body raised; when closing the source fails
+   the destination is not closed at all. *)
+Inductive cerr := EBody | ESrcClose | EDstClose.
+
+Definition cerr_eqb (a b : cerr) : bool :=
+  match a, b with
+  | EBody, EBody | ESrcClose, ESrcClose | EDstClose, EDstClose => true
+  | _, _ => false
+  end.
+
+(* (what run() raises: None = normal return, was the destination closed) *)
+Definition copier_outcome (c : copier) (src_close_ok dst_close_ok : bool) : option cerr * bool :=
+  if negb src_close_ok then (Some ESrcClose, false)
+  else if negb dst_close_ok then (Some EDstClose, true)
+  else (match c_status c with COk => None | _ => Some EBody end, true).
